@@ -1,6 +1,7 @@
 package main
 
 import (
+	"strings"
 	"bytes"
 	"crypto/x509"
 	"errors"
@@ -24,7 +25,7 @@ func optURL(s Sx) *url.URL {
 	if s.K != 1 {
 		return nil
 	}
-	return mustURL(string(s.B))
+	return assembledURL(string(s.B))
 }
 
 func optURLSx(u *url.URL) Sx {
@@ -67,11 +68,26 @@ func sigsSx(sg *bundle.Signatures) Sx {
 	return L(L(as...), L(vs...))
 }
 
+// assembledURL builds the URL with the given string form the way a caller that fills the fields by hand may:
+// for "…?query#fragment" the fragment sits inside RawQuery (Fragment stays empty) although String() is the
+// same text.  What a writer does with a URL may only depend on that text.
+func assembledURL(s string) *url.URL {
+	u := mustURL(s)
+	if q := strings.IndexByte(s, '?'); q >= 0 && u.Opaque == "" && u.Fragment != "" && u.RawFragment == "" && strings.IndexByte(s, '#') > q {
+		c := *u
+		c.RawQuery, c.Fragment = u.RawQuery+"#"+u.Fragment, ""
+		if c.String() == s {
+			return &c
+		}
+	}
+	return u
+}
+
 func bundleOf(s Sx) *bundle.Bundle {
 	b := &bundle.Bundle{Version: bverOf(s.L[0]), PrimaryURL: optURL(s.L[1]), ManifestURL: optURL(s.L[2]), Signatures: sigsOf(s.L[3])}
 	for _, x := range s.L[4].L {
 		b.Exchanges = append(b.Exchanges, &bundle.Exchange{
-			Request:  bundle.Request{URL: mustURL(string(x.L[0].B)), Header: http.Header{}},
+			Request:  bundle.Request{URL: assembledURL(string(x.L[0].B)), Header: http.Header{}},
 			Response: bundle.Response{Status: x.L[1].Int(), Header: headerOf(x.L[2]), Body: append([]byte{}, x.L[3].B...)}})
 	}
 	return b
